@@ -291,7 +291,13 @@ func (f facts) afterEdge(b *ssa.BasicBlock, k int) facts {
 	succ := b.Succs[k]
 	tr := tracked(b.Parent())
 	if tr == nil {
-		return f // nothing of this function is tracked; what is known about the callers' values stays
+		// nothing of this function is tracked. Inside a closure (a deferred clean-up, a visitor) what is known about the
+		// enclosing function's values stays; a named function starts from nothing, which keeps the number of distinct
+		// path states per callee small
+		if b.Parent().Parent() != nil {
+			return f
+		}
+		return ""
 	}
 	var m map[string]bool
 	get := func() map[string]bool {
